@@ -953,7 +953,8 @@ def r9_dimensions(ctx):
 
 def r10_solver_state(ctx):
     _C02.r1_kill_before_use(ctx)
-    from . import C01 as _C01
+    from . import C01 as _C01, C09 as _C09
+    _C09.r6_no_derived_state(ctx)   # a memo of parsed symbols / unit bases makes a parse depend on earlier (rejected or re-registered) ones
     _C01.residue_guard(ctx)      # `m m`, `2 m` ...: symbols left over after the passes are an error, not silently dropped
     fn = ctx.fn(US, "UnitSolver")
     built = [c for c in ast.walk(fn) if isinstance(c, ast.Call) and dotted_name(c.func) == "ExpressionSolver"]
